@@ -341,7 +341,9 @@ pub fn run(run: &mut Run) {
         }
     }, &stop);
     run.stats = Stats::merge_all(accs);
-    run.rule = "every tree with at most N operator nodes over 13 binary + 2 unary operators; leaves take the atom kinds in rotation (all rotations); distinct by construction; non-trivial = at least two leaves".into();
+    let all_leaves = if run.thorough() { 3 } else { 2 };
+    value_family(&mut run.stats, max_ops, all_leaves);
+    run.rule = "every tree with at most N operator nodes over 13 binary + 2 unary operators; leaves take the atom kinds in rotation (all rotations); values: every well-typed tree over int (+ - * unary -), float (+ - * / unary -) and bool (comparisons, and, or, not, ==) leaves x y 1 2 / p q 4.0 0.5 / t f with at most 2 (thorough: 3) operators, and a 1-in-97 slice of the trees with up to N operators, compiled and run in minimal and fully parenthesised form and compared with the value of the tree; distinct by construction; non-trivial = at least two leaves".into();
     run.bounds = json!({"max_operator_nodes": max_ops, "atoms": ATOMS, "shapes": shapes.len()});
     run.assumptions = vec![
         "the precedence table of the property statement; unary operands and unary children of * / are always parenthesised by the printer because the table is silent there".into(),
@@ -349,7 +351,268 @@ pub fn run(run: &mut Run) {
     ];
 }
 
+// ------------------------------------------------------------------------------------------
+// values: "evaluates to the same value as its fully parenthesised form"
+// ------------------------------------------------------------------------------------------
+#[derive(Clone, Copy, PartialEq, Eq, Hash, Debug)]
+enum VT {
+    I,
+    F,
+    B,
+}
+
+#[derive(Clone, Debug, PartialEq)]
+enum VV {
+    I(i64),
+    F(f64),
+    B(bool),
+}
+
+fn v_leaves(t: VT) -> Vec<Expr> {
+    match t {
+        VT::I => vec![var("x"), var("y"), int(1), int(2)],
+        VT::F => vec![var("p"), var("q"), Expr::Float(4.0), Expr::Float(0.5)],
+        VT::B => vec![var("t"), var("f")],
+    }
+}
+
+/// every well-typed tree with exactly `n` operator nodes; `rotate`: leaves are assigned in rotation instead of in
+/// every combination
+fn v_trees(t: VT, n: usize, memo: &mut std::collections::HashMap<(VT, usize), std::sync::Arc<Vec<Expr>>>) -> std::sync::Arc<Vec<Expr>> {
+    if let Some(v) = memo.get(&(t, n)) {
+        return v.clone();
+    }
+    let mut out = Vec::new();
+    if n == 0 {
+        out = v_leaves(t);
+    } else {
+        use BinOp::*;
+        // unary
+        match t {
+            VT::I | VT::F => {
+                for a in v_trees(t, n - 1, memo).iter() {
+                    out.push(un(UnOp::Neg, a.clone()));
+                }
+            }
+            VT::B => {
+                for a in v_trees(t, n - 1, memo).iter() {
+                    out.push(un(UnOp::Not, a.clone()));
+                }
+            }
+        }
+        for l in 0..n {
+            let r = n - 1 - l;
+            match t {
+                VT::I | VT::F => {
+                    let ops: &[BinOp] = if t == VT::I { &[Add, Sub, Mul] } else { &[Add, Sub, Mul, Div] };
+                    for a in v_trees(t, l, memo).iter() {
+                        for b in v_trees(t, r, memo).iter() {
+                            for op in ops {
+                                out.push(bin(*op, a.clone(), b.clone()));
+                            }
+                        }
+                    }
+                }
+                VT::B => {
+                    for a in v_trees(VT::B, l, memo).iter() {
+                        for b in v_trees(VT::B, r, memo).iter() {
+                            out.push(bin(And, a.clone(), b.clone()));
+                            out.push(bin(Or, a.clone(), b.clone()));
+                            out.push(bin(Eq, a.clone(), b.clone()));
+                        }
+                    }
+                    for nt in [VT::I, VT::F] {
+                        for a in v_trees(nt, l, memo).iter() {
+                            for b in v_trees(nt, r, memo).iter() {
+                                for op in [Lt, Le, Gt, Ge, Eq, Ne] {
+                                    out.push(bin(op, a.clone(), b.clone()));
+                                }
+                            }
+                        }
+                    }
+                }
+            }
+        }
+    }
+    let v = std::sync::Arc::new(out);
+    memo.insert((t, n), v.clone());
+    v
+}
+
+fn v_eval(e: &Expr) -> Option<VV> {
+    Some(match e {
+        Expr::Int(i) => VV::I(*i),
+        Expr::Float(f) => VV::F(*f),
+        Expr::Var(n) => match n.as_str() {
+            "x" => VV::I(10),
+            "y" => VV::I(3),
+            "p" => VV::F(8.0),
+            "q" => VV::F(2.0),
+            "t" => VV::B(true),
+            "f" => VV::B(false),
+            _ => return None,
+        },
+        Expr::Un(UnOp::Neg, a) => match v_eval(a)? {
+            VV::I(i) => VV::I(i.checked_neg()?),
+            VV::F(f) => VV::F(-f),
+            _ => return None,
+        },
+        Expr::Un(UnOp::Not, a) => match v_eval(a)? {
+            VV::B(b) => VV::B(!b),
+            _ => return None,
+        },
+        Expr::Bin(op, a, b) => {
+            use BinOp::*;
+            match (v_eval(a)?, v_eval(b)?) {
+                (VV::I(x), VV::I(y)) => match op {
+                    Add => VV::I(x.checked_add(y)?),
+                    Sub => VV::I(x.checked_sub(y)?),
+                    Mul => VV::I(x.checked_mul(y)?),
+                    Lt => VV::B(x < y),
+                    Le => VV::B(x <= y),
+                    Gt => VV::B(x > y),
+                    Ge => VV::B(x >= y),
+                    Eq => VV::B(x == y),
+                    Ne => VV::B(x != y),
+                    _ => return None,
+                },
+                (VV::F(x), VV::F(y)) => match op {
+                    Add => VV::F(x + y),
+                    Sub => VV::F(x - y),
+                    Mul => VV::F(x * y),
+                    Div => {
+                        if y == 0.0 {
+                            return None;
+                        }
+                        VV::F(x / y)
+                    }
+                    Lt => VV::B(x < y),
+                    Le => VV::B(x <= y),
+                    Gt => VV::B(x > y),
+                    Ge => VV::B(x >= y),
+                    Eq => VV::B(x == y),
+                    Ne => VV::B(x != y),
+                    _ => return None,
+                },
+                (VV::B(x), VV::B(y)) => match op {
+                    And => VV::B(x && y),
+                    Or => VV::B(x || y),
+                    Eq => VV::B(x == y),
+                    _ => return None,
+                },
+                _ => return None,
+            }
+        }
+        _ => return None,
+    })
+}
+
+fn v_text(v: &VV) -> Option<String> {
+    Some(match v {
+        VV::I(i) => format!("{}", i),
+        VV::F(f) => {
+            if !f.is_finite() || (*f != 0.0 && (f.abs() < 1e-4 || f.abs() > 1e12)) {
+                return None;
+            }
+            crate::refsylt::float_text(*f)
+        }
+        VV::B(b) => format!("{}", b),
+    })
+}
+
+/// compiles and runs `print(<minimal form>)` and `print(<fully parenthesised form>)` of every tree; both must print the
+/// value the tree denotes
+fn value_family(st: &mut Stats, max_ops: usize, all_leaves_up_to: usize) {
+    use crate::harness::*;
+    let mut memo = std::collections::HashMap::new();
+    let mut trees: Vec<Expr> = Vec::new();
+    for n in 1..=max_ops {
+        for t in [VT::I, VT::F, VT::B] {
+            let all = v_trees(t, n, &mut memo);
+            if n <= all_leaves_up_to {
+                trees.extend(all.iter().cloned());
+            } else {
+                // a deterministic 1-in-k slice that still visits every operator shape: leaves vary fastest in the
+                // enumeration, so a stride coprime to the leaf counts walks through all shapes and leaf choices
+                let stride = 97;
+                trees.extend(all.iter().enumerate().filter(|(i, _)| i % stride == n).map(|(_, e)| e.clone()));
+            }
+        }
+    }
+    // keep only trees with a defined, printable value
+    let cases: Vec<(Expr, String)> = trees.into_iter().filter_map(|e| v_eval(&e).and_then(|v| v_text(&v)).map(|t| (e, t))).collect();
+    let chunks: Vec<&[(Expr, String)]> = cases.chunks(160).collect();
+    let accs = crate::pool::par_items(&chunks, 1, |_| Stats::new(), |acc, ci, chunk| {
+        let mut text = String::from("print: fn *X -> void : external\nx := 10\ny := 3\np := 8.0\nq := 2.0\nt := true\nf := false\n");
+        let mut calls = Vec::new();
+        for (k, part) in chunk.chunks(8).enumerate() {
+            text.push_str(&format!("part{} :: fn do\n", k));
+            for (e, _) in part {
+                let min = Printer::new(PrintOpts::default()).expr(e, 0);
+                let full = Printer::new(PrintOpts { full_parens: true, ..PrintOpts::default() }).expr(e, 0);
+                text.push_str(&format!("    print({})\n    print({})\n", min, full));
+            }
+            text.push_str("end\n");
+            calls.push(format!("    part{}()\n", k));
+        }
+        text.push_str("start :: fn do\n");
+        for c in &calls {
+            text.push_str(c);
+        }
+        text.push_str("end\n");
+        let mut files = serde_json::Map::new();
+        files.insert(MAIN.to_string(), json!(text));
+        let out = match compile_src(&text) {
+            Outcome::Ok(lua) => crate::luarun::run_lua(&lua, 50_000_000),
+            other => {
+                acc.outcome("value:program-rejected");
+                acc.fail(Failure { sig: "value-program-rejected".into(), preds: vec![], detail: format!("{}\n{}", other.short(), text), case: json!({"engine": "c13-values", "files": files, "expected": []}), size: text.len() });
+                return;
+            }
+        };
+        let expected: Vec<String> = chunk.iter().flat_map(|(_, t)| [t.clone(), t.clone()]).collect();
+        for (k, (e, want)) in chunk.iter().enumerate() {
+            acc.evaluations += 2;
+            acc.transitions += 2;
+            acc.nontrivial_by_construction += 1;
+            let got_min = out.out.get(2 * k);
+            let got_full = out.out.get(2 * k + 1);
+            if got_min == Some(want) && got_full == Some(want) {
+                acc.outcome("value:both-forms-give-the-denoted-value");
+            } else {
+                acc.outcome("value:DIFFERS");
+                let min = Printer::new(PrintOpts::default()).expr(e, 0);
+                let full = Printer::new(PrintOpts { full_parens: true, ..PrintOpts::default() }).expr(e, 0);
+                acc.fail(Failure {
+                    sig: if got_min != got_full { "minimal-and-full-form-values-differ".into() } else { "value-differs-from-the-tree".into() },
+                    preds: vec![],
+                    detail: format!("`{}` printed {:?}, `{}` printed {:?}, the tree denotes {} (x=10 y=3 p=8.0 q=2.0 t=true f=false); run ended {:?}", min, got_min, full, got_full, want, out.end),
+                    case: json!({"engine": "c13-values", "files": files, "expected": expected}),
+                    size: min.len(),
+                });
+            }
+        }
+        if ci % 53 == 0 {
+            acc.sample(json!({"value_program_head": text.lines().take(12).collect::<Vec<_>>()}));
+        }
+    });
+    st.merge(Stats::merge_all(accs));
+    st.count("value_trees", cases.len() as u64);
+}
+
 pub fn replay(case: &serde_json::Value) -> Option<(String, String)> {
+    if case["engine"] == "c13-values" {
+        use crate::harness::*;
+        let text = case["files"][MAIN].as_str()?;
+        let want: Vec<String> = case["expected"].as_array()?.iter().filter_map(|x| x.as_str().map(|s| s.to_string())).collect();
+        return match compile_src(text) {
+            Outcome::Ok(lua) => {
+                let r = crate::luarun::run_lua(&lua, 50_000_000);
+                if r.out == want { None } else { Some(("value-differs".into(), format!("first difference at line {:?}", r.out.iter().zip(want.iter()).position(|(a, b)| a != b)))) }
+            }
+            other => Some(("value-program-rejected".into(), other.short())),
+        };
+    }
     let e = sexp_to_expr(case["tree"].as_str()?)?;
     judge(&e).0
 }
